@@ -446,17 +446,23 @@ got_m:
             break;
         } while (1);
 #else   /* ifdef LOCK_FREE_FEBS */
-        /* Note that locking the hash table is unnecessary because we have
-         * locked the syncvar itself. */
+        /* The table must stay locked until the record is locked: qthread_syncvar_remove()
+         * runs without the syncvar's lock bit and may otherwise remove and free the
+         * record between the lookup and the lock (as in readFE and writeEF). */
         QTHREAD_COUNT_THREADS_BINCOUNTER(febs, lockbin);
-        m = (qthread_addrstat_t *)qt_hash_get(syncvars[lockbin], (void *)src);
+        qt_hash_lock(syncvars[lockbin]);
+        m = (qthread_addrstat_t *)qt_hash_get_locked(syncvars[lockbin], (void *)src);
         if (!m) {
             m = qthread_addrstat_new();
             assert(m);
-            if (!m) { return QTHREAD_MALLOC_ERROR; }
-            qassertnot(qt_hash_put(syncvars[lockbin], (void *)src, m), 0);
+            if (!m) {
+                qt_hash_unlock(syncvars[lockbin]);
+                return QTHREAD_MALLOC_ERROR;
+            }
+            qassertnot(qt_hash_put_locked(syncvars[lockbin], (void *)src, m), 0);
         }
         QTHREAD_FASTLOCK_LOCK(&(m->lock));
+        qt_hash_unlock(syncvars[lockbin]);
 #endif  /* ifdef LOCK_FREE_FEBS */
         UNLOCK_THIS_MODIFIED_SYNCVAR(src, ret, SYNCFEB_STATE_EMPTY_WITH_WAITERS);
         X = ALLOC_ADDRRES();
